@@ -236,6 +236,14 @@ func (c *FnCtx) run() {
 					n := c.fresh(strings.Trim(name, "|"), c.heapSort(name))
 					c.define(eq(n, m))
 					nh[name] = n
+					var conds, vers []string
+					for _, e := range ins {
+						conds = append(conds, e.cond)
+						vers = append(vers, c.heapTerm(e.st.heap, name))
+					}
+					hs := c.heapSort(name)
+					valSort := strings.TrimSuffix(strings.TrimPrefix(hs, "(Array Int "), ")")
+					c.mergeKnown(n, conds, vers, strings.HasPrefix(strings.Trim(name, "|"), "Elems "), valSort)
 				}
 			}
 			c.heap = nh
@@ -533,6 +541,14 @@ func (c *FnCtx) resolveName(name string, b *ssa.BasicBlock, idx int, atLoopHead 
 			}
 			if phi.Comment == name {
 				return phi, false, true
+			}
+			// rangeidx: the index of the next iteration of a `for … range` loop without a named index
+			if name == "rangeidx" && phi.Comment == "rangeindex" {
+				for _, in2 := range b.Instrs {
+					if bo, ok := in2.(*ssa.BinOp); ok && bo.X == phi && bo.Op == token.ADD {
+						return bo, false, true
+					}
+				}
 			}
 		}
 		// forward search in the loop for a header-defined value bound to the name
